@@ -59,6 +59,20 @@ func main() {
 			genTraces(w, r.Fork(), a.Tier)
 			genGrowTraces(w, r.Fork(), a.Tier)
 		}
+		if only == "" || only == "cotree" {
+			genCoTrees(w, r.Fork(), a.Tier)
+		}
+		if only == "" || only == "ctx" {
+			nc := 300
+			if a.Tier == "thorough" {
+				nc = 6000
+			}
+			ctxCorpus(w)
+			rc := r.Fork()
+			for i := 0; i < nc; i++ {
+				runCtx(w, genCtx(rc.Fork()), "hist/ctx")
+			}
+		}
 		if only == "" || only == "limits" {
 			genLimits(w, r.Fork(), a.Tier)
 			genCcalls(w)
@@ -157,6 +171,10 @@ func replay(w *lib.Writer, path string) {
 		var in TraceIn
 		json.Unmarshal(rp.Input, &in)
 		replayTrace(w, in)
+	case "ctx":
+		var in CtxIn
+		json.Unmarshal(rp.Input, &in)
+		runCtx(w, in, "replay")
 	case "ccall":
 		var in CcallIn
 		json.Unmarshal(rp.Input, &in)
